@@ -88,7 +88,7 @@ def text_and_attr_values(root) -> list[str]:
 HOSTILE = ['a&b', 'x<y>z', 'q"uo\'te', ']]>', 'u n', '</Title><evil/>', '&amp;', '"/><x a="', '$Number$',
            'Caf&eacute; &nbsp;&#60;b&#62;', '&#x3c;Period/&#x3e;', 'L' * 4000]
 # strings that are always tried in the quick tier: markup that would add elements, and text shaped like entity / character references
-ESSENTIAL = ['</Title><evil/>', 'Caf&eacute; &nbsp;&#60;b&#62;']
+ESSENTIAL = ['</Title><evil/>', 'Caf&eacute; &nbsp;&#60;b&#62;', 'pay$Foo$ 5$']
 BENIGN = 'benign'
 
 
@@ -233,6 +233,8 @@ def main(tier_: str) -> int:
                         set_strings(val)
                         qv = quote(val[:300], safe='')
                         u = url + f'&playready__la_url={quote("https://l.test/?a=" + val[:100], safe="")}&ping__value={qv}&unknown_param={qv}'
+                        if 'events=' not in u:
+                            u += '&events=ping'         # so that the event value travels on into the media URL templates
                         host = 'evil.test' if val is BENIGN else ('ex"ample<.test' if '"' in val or '<' in val else 'evil.test')
                         r = fetch(u, host=None)
                         variants.append((u, r))
@@ -240,6 +242,8 @@ def main(tier_: str) -> int:
                     if rh.status_code != 200 or rb.status_code != 200:
                         lines.append({'ev': 'pair_refused', 'url': uh, 'status': [rh.status_code, rb.status_code]})
                         continue
+                    # the document with the hostile strings is a manifest like any other: all structural rules apply to it
+                    lines.append(doc_line(uh + '#hostile', rh.data, rh.status_code))
                     try:
                         root_h = M.parse_xml(rh.data)
                         skh = M.skeleton(rh.data)
